@@ -2012,10 +2012,21 @@ func (e *c34Env) analyse(fam, format string, s *PkgSpec, data []byte, res *c34Re
 			var req strings.Builder
 			fmt.Fprintf(&req, "rpmfiletags %d", len(x.Files))
 			for _, rf := range x.Files {
-				body := bodies[rf.Name]
+				body, shipped := bodies[rf.Name]
 				sum := sha256.Sum256(body)
+				size, digest, link := uint64(len(body)), hex.EncodeToString(sum[:]), string(body)
+				if !shipped && rf.Flags&64 != 0 {
+					// a ghost ships no body: what its row says about size, digest and link target describes the file the
+					// packager was shown at build time (rpmpack, like rpmbuild, records the source's), nothing in the package
+					// can confirm or refute it – taken as found; the encoding of the row is still the model's
+					size, digest, link = rf.Size, rf.Digest, rf.Linkto
+					if res.TarBy == nil {
+						res.TarBy = map[string]int{}
+					}
+					res.TarBy["rpm:file-list:ghost-row-values-as-found"]++
+				}
 				fmt.Fprintf(&req, " %s %d %d %s %s %d %d %s %s", wire.H(rf.Name), rf.Mode, rf.Flags, wire.H(rf.User), wire.H(rf.Group), rf.MTime,
-					len(body), wire.H(hex.EncodeToString(sum[:])), wire.H(string(body)))
+					size, wire.H(digest), wire.H(link))
 			}
 			fileTags := []int{1028, 1030, 1033, 1034, 1035, 1036, 1037, 1039, 1040, 1045, 1096, 1097, 1116, 1117, 1118, 5011}
 			var want strings.Builder
